@@ -177,10 +177,10 @@ FIXED_WIDTH_OK = {
         'names are validated to at most 50 characters first',
 }
 LEN_COINCIDENCE_OK = {
-    ('LogLikelihood', '__init__', 'len(observations)!=n_outputs'):
+    ('LogLikelihood', '__init__', 'len(observations)!=?'):
         'documented convenience: flat observations for a single-output '
         'problem are wrapped (inside `if n_outputs == 1`)',
-    ('LogLikelihood', '__init__', 'len(times)!=n_outputs'):
+    ('LogLikelihood', '__init__', 'len(times)!=?'):
         'documented convenience: flat times for a single-output problem',
 }
 # keywords whose default legitimately differs between functions
@@ -587,7 +587,17 @@ def r00(ctx, repo, files=None):
                     continue
             else:
                 continue
-            if (cls, fn.name, U(c).replace(' ', '')) in LEN_COINCIDENCE_OK:
+            import copy as _cp
+            _par = {a.arg for a in fn.args.args}
+
+            class _Abs(ast.NodeTransformer):
+                def visit_Name(self, n_):
+                    if n_.id in _par or n_.id in ('len', 'np', 'self'):
+                        return n_
+                    return ast.copy_location(ast.Name(id='?', ctx=n_.ctx),
+                                             n_)
+            key_ = U(_Abs().visit(_cp.deepcopy(c))).replace(' ', '')
+            if (cls, fn.name, key_) in LEN_COINCIDENCE_OK:
                 continue
             bad += 1
             ctx.violation(
